@@ -107,9 +107,6 @@ Lemma respond_spec al_model al peer t r :
   respond (allowed al_model peer) t r = spec_respond al peer t r.
 Proof. intros E. unfold spec_respond. rewrite <- E. reflexivity. Qed.
 
-Lemma wf_v4 peer : peer <? 2 ^ 32 = true -> wf_ip (V4 peer) = true.
-Proof. intros H. exact H. Qed.
-
 Lemma run_sstep_spec al s st :
   st_listening s = true -> wf_sstep st = true ->
   (forall peer, wf_ip peer = true -> allowed (st_allow s) peer = spec_allowed al peer) ->
@@ -119,18 +116,18 @@ Proof.
   intros Hl Hw Hal. destruct st as [peer render targets|n peer render target|kind peer|]; cbn [run_sstep wf_sstep spec_sout] in *.
   - set (s0 := fst (step s (Update render))).
     assert (L0 : st_listening s0 = true) by (unfold s0; cbn [step fst st_listening]; exact Hl).
-    destruct (serve_conn_spec s0 (V4 peer) targets EvClose L0) as (R & A & L & _).
-    destruct (serve_conn s0 (V4 peer) targets EvClose) as [s1 rs]. cbn [fst snd] in *.
+    destruct (serve_conn_spec s0 peer targets EvClose L0) as (R & A & L & _).
+    destruct (serve_conn s0 peer targets EvClose) as [s1 rs]. cbn [fst snd] in *.
     subst rs. repeat split; [|exact A|exact L]. f_equal. apply map_ext. intros t.
-    apply respond_spec. apply Hal. apply wf_v4. exact Hw.
+    apply respond_spec. apply Hal. exact Hw.
   - set (s0 := fst (step s (Update render))).
     assert (L0 : st_listening s0 = true) by (unfold s0; cbn [step fst st_listening]; exact Hl).
-    destruct (burst_spec (N.to_nat n) s0 (V4 peer) target L0) as (R & A & L & _).
-    destruct (burst s0 (N.to_nat n) (V4 peer) target) as [s1 rs]. cbn [fst snd] in *.
+    destruct (burst_spec (N.to_nat n) s0 peer target L0) as (R & A & L & _).
+    destruct (burst s0 (N.to_nat n) peer target) as [s1 rs]. cbn [fst snd] in *.
     subst rs. repeat split; [|exact A|exact L]. f_equal. f_equal.
-    apply respond_spec. apply Hal. apply wf_v4. exact Hw.
-  - destruct (serve_conn_spec s (V4 peer) [] (fault_event kind) Hl) as (_ & A & L & _).
-    destruct (serve_conn s (V4 peer) [] (fault_event kind)) as [s1 rs]. cbn [fst snd] in *.
+    apply respond_spec. apply Hal. exact Hw.
+  - destruct (serve_conn_spec s peer [] (fault_event kind) Hl) as (_ & A & L & _).
+    destruct (serve_conn s peer [] (fault_event kind)) as [s1 rs]. cbn [fst snd] in *.
     repeat split; assumption.
   - cbn [fst snd]. repeat split. exact Hl.
 Qed.
@@ -153,42 +150,55 @@ Proof. unfold dec2b. destruct (d a b); split; intros; try discriminate; try cont
 Lemma dec2b_refl {A} (d : forall a b : A, {a = b} + {a <> b}) a : dec2b d a a = true.
 Proof. apply dec2b_true. reflexivity. Qed.
 
-Definition entry_ok (x : list N * entry4) : bool :=
-  let '(txt, i) := x in wf_entry4 i && dec2b bytes_eq_dec txt (print_entry4 i).
-
 Lemma wf_entry4_net e : wf_entry4 e = true -> wf_net (entry4_net e) = true.
 Proof.
   unfold wf_entry4, wf_net, wf_ip, entry4_net. cbn [fst snd ipval width]. intros H.
   apply andb_prop in H as [H _]. exact H.
 Qed.
 
+Lemma entry_ok_parses txt e : entry_ok (txt, e) = true ->
+  parse_entry txt = Some (sentry_net e) /\ wf_net (sentry_net e) = true.
+Proof.
+  destruct e as [i|n]; cbn [entry_ok sentry_net]; intros H.
+  - apply andb_prop in H as [Hw Ht]. apply dec2b_true in Ht. subst txt.
+    split; [apply entry4_parses; exact Hw | apply wf_entry4_net; exact Hw].
+  - apply dec2b_true in H. split; [exact H|]. eapply parse_entry_wf. exact H.
+Qed.
+
 Lemma parse_all_entries entries :
   forallb entry_ok entries = true ->
-  parse_all true (map fst entries) = Some (map entry4_net (map snd entries)).
+  parse_all true (map fst entries) = Some (map sentry_net (map snd entries)).
 Proof.
-  induction entries as [|[txt i] r IH]; intros H; [reflexivity|].
-  cbn [forallb entry_ok] in H. apply andb_prop in H as [H1 H2]. apply andb_prop in H1 as [Hw Ht].
-  apply dec2b_true in Ht. subst txt. cbn [map fst snd parse_all].
-  change (parse_entry_gen true) with parse_entry. rewrite entry4_parses by exact Hw.
-  rewrite IH by exact H2. reflexivity.
+  induction entries as [|[txt e] r IH]; intros H; [reflexivity|].
+  cbn [forallb] in H. apply andb_prop in H as [H1 H2].
+  destruct (entry_ok_parses txt e H1) as [P _]. cbn [map fst snd parse_all].
+  change (parse_entry_gen true) with parse_entry. rewrite P, IH by exact H2. reflexivity.
+Qed.
+
+Lemma entries_wf entries : forallb entry_ok entries = true ->
+  forall n, In n (map sentry_net (map snd entries)) -> wf_net n = true.
+Proof.
+  intros H n Hin. rewrite map_map in Hin. apply in_map_iff in Hin as ([txt e] & <- & Hx).
+  rewrite forallb_forall in H. apply (entry_ok_parses txt e (H _ Hx)).
+Qed.
+
+Lemma allowlists_agree_nets nets peer :
+  (forall n, In n nets -> wf_net n = true) -> wf_ip peer = true ->
+  allowed (allowlist_of nets) peer = spec_allowed (spec_allowlist_nets nets) peer.
+Proof.
+  intros Hw Hp. destruct nets as [|n r]; [reflexivity|].
+  change (allowlist_of (n :: r)) with (Some (n :: r)).
+  change (spec_allowlist_nets (n :: r)) with (Some (n :: r)).
+  apply allowed_spec; [|exact Hp]. exact Hw.
 Qed.
 
 Lemma allowlists_agree es peer :
   forallb wf_entry4 es = true -> wf_ip peer = true ->
   allowed (allowlist_of (map entry4_net es)) peer = spec_allowed (spec_allowlist es) peer.
 Proof.
-  intros Hw Hp. destruct es as [|e r]; [reflexivity|].
-  change (allowlist_of (map entry4_net (e :: r))) with (Some (map entry4_net (e :: r))).
-  change (spec_allowlist (e :: r)) with (Some (map entry4_net (e :: r))).
-  apply allowed_spec; [|exact Hp]. intros n Hin. apply in_map_iff in Hin as (x & <- & Hx).
+  intros Hw Hp. unfold spec_allowlist. apply allowlists_agree_nets; [|exact Hp].
+  intros n Hin. apply in_map_iff in Hin as (x & <- & Hx).
   apply wf_entry4_net. rewrite forallb_forall in Hw. apply Hw. exact Hx.
-Qed.
-
-Lemma entries_wf entries : forallb entry_ok entries = true -> forallb wf_entry4 (map snd entries) = true.
-Proof.
-  induction entries as [|[txt i] r IH]; intros H; [reflexivity|].
-  cbn [forallb entry_ok map snd] in *. apply andb_prop in H as [H1 H2]. apply andb_prop in H1 as [Hw _].
-  rewrite Hw, IH by exact H2. reflexivity.
 Qed.
 
 Lemma bits_for_agree n peers :
@@ -216,18 +226,18 @@ Proof.
     + apply dec2b_true. unfold parse_entry_gen. destruct (parse_cidr e); reflexivity.
     + destruct intent as [i|]; [|reflexivity]. apply andb_prop in Hi as [Hw Ht].
       apply dec2b_true in Ht. subst e. apply dec2b_true. apply entry4_parses. exact Hw.
-  - apply andb_prop in Hwf as [He Hs]. change (forallb (fun '(txt, i) => wf_entry4 i && dec2b bytes_eq_dec txt (print_entry4 i)) entries)
-      with (forallb entry_ok entries) in He.
+  - apply andb_prop in Hwf as [He Hs].
     rewrite parse_all_entries by exact He. apply dec2b_true.
     apply run_ssteps_spec; [reflexivity | exact Hs |].
-    intros peer Hp. cbn [init_state st_allow]. apply allowlists_agree; [apply entries_wf; exact He | exact Hp].
+    intros peer Hp. cbn [init_state st_allow]. unfold spec_allowlist_s.
+    apply allowlists_agree_nets; [apply entries_wf; exact He | exact Hp].
 Qed.
 
 (* ---- what spec_ok means *)
 Theorem spec_ok_serve_iff entries steps o :
   spec_ok (CServe entries steps) o = true <->
   wf_case (CServe entries steps) = true /\
-  o = OServe (map (spec_sout (spec_allowlist (map snd entries))) steps).
+  o = OServe (map (spec_sout (spec_allowlist_s (map snd entries))) steps).
 Proof.
   unfold spec_ok. rewrite andb_true_iff. split.
   - intros [Hw H]. split; [exact Hw|]. destruct o; try discriminate. apply dec2b_true in H. subst. reflexivity.
@@ -256,7 +266,29 @@ Qed.
 (* Whatever happened on the listener before (any events: other connections served, garbage, resets, half-open
    sockets, accept errors, metric updates), a new connection from [peer] asking for [target] is answered as the
    specification says, from the entries as written, with the rendering current at that time. *)
-Theorem served_per_spec es r0 :
+Theorem served_per_spec entries r0 :
+  forallb entry_ok entries = true ->
+  exists nets, parse_all true (map fst entries) = Some nets /\
+    forall evs peer target, wf_ip peer = true ->
+      let s1 := fst (run (init_state (allowlist_of nets) r0) evs) in
+      snd (step (fst (step s1 (Accept peer))) (Conn (st_next s1) (EvRequest target))) =
+        Some (spec_respond (spec_allowlist_s (map snd entries)) peer target (st_render s1)).
+Proof.
+  intros Hw. exists (map sentry_net (map snd entries)). split; [apply parse_all_entries; exact Hw|].
+  intros evs peer target Hp s1.
+  destruct (connections_independent evs (init_state (allowlist_of (map sentry_net (map snd entries))) r0)) as [A L].
+  fold s1 in A, L. cbn [init_state st_allow st_listening] in A, L.
+  pose proof (accept_state s1 peer L) as Ea.
+  assert (Hf : find_conn (st_next s1) (st_conns (fst (step s1 (Accept peer)))) = Some (new_conn s1 peer)).
+  { rewrite Ea. cbn [st_conns]. unfold find_conn. cbn [find new_conn c_id]. rewrite N.eqb_refl. reflexivity. }
+  pose proof (request_on_head (fst (step s1 (Accept peer))) (new_conn s1 peer) target Hf eq_refl) as R.
+  cbn [new_conn c_id c_allowed] in R. rewrite R. cbn [snd]. f_equal.
+  rewrite Ea. cbn [st_render]. rewrite A. apply respond_spec. unfold spec_allowlist_s.
+  apply allowlists_agree_nets; [apply entries_wf; exact Hw | exact Hp].
+Qed.
+
+(* the same for IPv4 entries in the documented syntax, from the entries as written (no parser in the statement) *)
+Theorem served_per_spec_v4 es r0 :
   forallb wf_entry4 es = true ->
   exists nets, parse_all true (map print_entry4 es) = Some nets /\
     forall evs peer target, wf_ip peer = true ->
@@ -264,19 +296,12 @@ Theorem served_per_spec es r0 :
       snd (step (fst (step s1 (Accept peer))) (Conn (st_next s1) (EvRequest target))) =
         Some (spec_respond (spec_allowlist es) peer target (st_render s1)).
 Proof.
-  intros Hw. exists (map entry4_net es). split.
-  - assert (E : forallb entry_ok (map (fun i => (print_entry4 i, i)) es) = true).
-    { rewrite forallb_forall in *. intros [txt i] Hin. apply in_map_iff in Hin as (x & Hx & Hin).
-      inversion Hx; subst. cbn [entry_ok]. rewrite (Hw _ Hin), dec2b_refl. reflexivity. }
-    pose proof (parse_all_entries _ E) as P. rewrite !map_map in P. cbn [fst snd] in P.
-    exact P.
-  - intros evs peer target Hp s1.
-    destruct (connections_independent evs (init_state (allowlist_of (map entry4_net es)) r0)) as [A L].
-    fold s1 in A, L. cbn [init_state st_allow st_listening] in A, L.
-    pose proof (accept_state s1 peer L) as Ea.
-    assert (Hf : find_conn (st_next s1) (st_conns (fst (step s1 (Accept peer)))) = Some (new_conn s1 peer)).
-    { rewrite Ea. cbn [st_conns]. unfold find_conn. cbn [find new_conn c_id]. rewrite N.eqb_refl. reflexivity. }
-    pose proof (request_on_head (fst (step s1 (Accept peer))) (new_conn s1 peer) target Hf eq_refl) as R.
-    cbn [new_conn c_id c_allowed] in R. rewrite R. cbn [snd]. f_equal.
-    rewrite Ea. cbn [st_render]. rewrite A. apply respond_spec. apply allowlists_agree; assumption.
+  intros Hw.
+  assert (E : forallb entry_ok (map (fun i => (print_entry4 i, E4 i)) es) = true).
+  { rewrite forallb_forall in *. intros [txt e] Hin. apply in_map_iff in Hin as (x & Hx & Hin).
+    inversion Hx; subst. cbn [entry_ok]. rewrite (Hw _ Hin), dec2b_refl. reflexivity. }
+  destruct (served_per_spec _ r0 E) as (nets & P & H). exists nets. split.
+  - rewrite map_map in P. cbn [fst] in P. exact P.
+  - intros evs peer target Hp. specialize (H evs peer target Hp). cbn zeta in *. rewrite H. f_equal. f_equal.
+    unfold spec_allowlist_s, spec_allowlist. rewrite !map_map. reflexivity.
 Qed.
